@@ -238,8 +238,10 @@ class InterleaveProfile:
     name = "interleave"
     T = 7200
 
-    def gen_conv(self, rnd, cfg, cid, tag, timeout):
-        """One client's conversation, generated online in a solo run."""
+    def gen_conv(self, rnd, cfg, cid, tag, timeout, barrier=None, bar_first=False):
+        """One client's conversation, generated online in a solo run.  With `barrier` (a reload op that puts new
+        service/rule tables in force) the reload happens after a random number of this client's own events
+        (before its announce when bar_first); self.last_bar tells after how many."""
         o = {"cfg": cfg, "clients": 1, "conc": 1, "steps": rnd.choice([8, 15, 25, 40]), "drain": False, "w_audit": 0,
              "faults": [f for f in ("cli_hurry", "cli_disconnect", "cli_pass_repeat", "cli_pass_illshaped", "xr_dup",
                                     "xr_unlinked", "xr_notfinal", "xr_not_awaited", "xr_unknown_svc", "seg")
@@ -256,7 +258,20 @@ class InterleaveProfile:
         ex.apply({"op": "adv", "ns": tick_ns(0)})
         expired = False
         ended_at = None
+        bar = None
+        bar_target = 0 if bar_first else rnd.choice([1, 2, 3, 4, 6, 9, 14, 99])
+
+        def do_barrier():
+            ok = ex.apply(barrier)
+            g.svc_now = dict(barrier["services"])
+            g.rules_now = json.loads(json.dumps(barrier.get("rules", {})))
+            g.svc_ever |= set(barrier["services"])
+            return ok
         while True:
+            if barrier is not None and bar is None and len(ops) >= bar_target:
+                bar = len(ops)
+                if not do_barrier():
+                    break
             if timeout and not expired and ops and rnd.random() < 0.12:
                 op = {"op": "expire", "cid": cid}
                 expired = True
@@ -284,18 +299,27 @@ class InterleaveProfile:
                 ops.append(op)
                 if not apply_conv_op(ex, op):
                     break
+        if barrier is not None and bar is None and not ex.h.dead:
+            bar = len(ops)
+            do_barrier()
         if timeout and not expired:
             ops.append({"op": "expire", "cid": cid})
         res = ex.finish()
         if res.viol or not ops or ops[0]["op"] != "announce":
             return None
         self.last_ended_at = ended_at
+        self.last_bar = bar
         return ops
 
     def gen_run(self, rnd, opts, tier, tag):
         cfg = gen_cfg(rnd, {"modules": rnd.choice(["xquery", "class", "class"]), "min_svc": rnd.choice([0, 1, 1, 2]), "p_logs": 0.1})
         timeout = rnd.random() < 0.5
         cfg["timeout"] = self.T if timeout else 0
+        barrier = None
+        if not timeout and cfg["services"] and rnd.random() < 0.35:
+            # one reload of the service/rule tables, which every conversation sees after a fixed number of its
+            # own events, in every schedule and in its solo run alike
+            barrier = self.gen_barrier(rnd, cfg)
         k = rnd.randint(2, 6)
         cids = rnd.sample(range(1, 60), k)
         if rnd.random() < 0.25:
@@ -304,46 +328,78 @@ class InterleaveProfile:
             cids = rnd.sample(pool, k)
         convs = []
         ended = []
+        bars = []
         for j in range(k):
-            c = self.gen_conv(rnd, cfg, cids[j], tag + "S", timeout)
+            c = self.gen_conv(rnd, cfg, cids[j], tag + "S", timeout, barrier)
             if c:
                 convs.append(c)
                 ended.append(self.last_ended_at)
+                bars.append(self.last_bar)
         # id reuse: a conversation may take over the id of one that has ended (its announce comes after the
         # predecessor's last own event; the predecessor's late replies and expiry may still follow)
         after = {}
         for j in range(len(convs)):
             if ended[j] is not None and rnd.random() < 0.45 and len(convs) < 8 and j not in after.values():
-                c = self.gen_conv(rnd, cfg, convs[j][0]["cid"], tag + "S", timeout)
+                c = self.gen_conv(rnd, cfg, convs[j][0]["cid"], tag + "S", timeout, barrier, bar_first=True)
                 if c:
                     convs.append(c)
                     ended.append(self.last_ended_at)
+                    bars.append(self.last_bar)
                     after[str(len(convs) - 1)] = j
         if len(convs) < 2:
             r = proto.Result()
             r.hash = "skip"
             r.nontrivial = False
             return {"profile": "interleave", "cfg": cfg, "convs": convs, "orders": []}, r
-        orders = [self.merge(rnd, convs, after, ended), self.merge(rnd, convs, after, ended)]
-        if tier == "thorough" or after or rnd.random() < 0.3:
+        if barrier is None:
+            bars = None
+        orders = [self.merge(rnd, convs, after, ended, bars), self.merge(rnd, convs, after, ended, bars)]
+        if tier == "thorough" or after or barrier or rnd.random() < 0.3:
             orders.append("solo")
         plan = {"profile": "interleave", "cfg": cfg, "convs": convs, "orders": orders, "after": after, "ended": ended,
+                "barrier": barrier, "bars": bars,
                 # schedule 0 may be preceded by hundreds or thousands of unrelated short-lived clients
                 "prelude": rnd.choice([0, 0, 0, 0, 0, 0, 300, 300, 4200]) if tier == "quick" else rnd.choice([0, 0, 0, 300, 4200, 70000])}
         return plan, self.run(plan, tag)
 
-    def merge(self, rnd, convs, after=None, ended=None):
+    def gen_barrier(self, rnd, cfg):
+        svcs = dict(cfg["services"])
+        rules = json.loads(json.dumps(cfg.get("rules", {})))
+        names = sorted(svcs)
+        k = rnd.random()
+        if k < 0.55:
+            del svcs[rnd.choice(names)]                     # a service the clients may be waiting for goes away
+            if rnd.random() < 0.4:
+                svcs[rnd.choice([n for n in proto.SVC_POOL if n not in cfg["services"]])] = rnd.choice(proto.SVC_TYPES)
+        elif k < 0.75:
+            svcs[rnd.choice([n for n in proto.SVC_POOL if n not in svcs])] = rnd.choice(proto.SVC_TYPES)
+        elif k < 0.9:
+            svcs[rnd.choice(names)] = rnd.choice(list(proto.SVC_TYPES) + ["proxycheck"])
+        else:
+            svcs = {}
+        if rules and rnd.random() < 0.3:
+            del rules[rnd.choice(sorted(rules))]
+        return {"op": "reload", "how": "tables", "services": svcs, "rules": rules, "omit": []}
+
+    def merge(self, rnd, convs, after=None, ended=None, bars=None):
         """Random interleaving preserving each conversation's order, with
         expiries in announce order (one global clock)."""
         pos = [0] * len(convs)
         announced = []
         expired = set()
         order = []
+        fired = bars is None
         while True:
+            if not fired and all(pos[k] == bars[k] for k in range(len(convs))):
+                order.append(-1)        # the reload: every conversation has had exactly its share of events
+                fired = True
+                continue
             enabled = []
             for k, c in enumerate(convs):
                 if pos[k] >= len(c):
                     continue
+                if not fired and pos[k] >= bars[k]:
+                    continue            # waits for the reload
                 op = c[pos[k]]
                 if op["op"] == "expire":
                     earlier = announced[:announced.index(k)] if k in announced else []
@@ -367,7 +423,7 @@ class InterleaveProfile:
             order.append(k)
         return order
 
-    def run_order(self, cfg, convs, order, tag, prelude=0):
+    def run_order(self, cfg, convs, order, tag, prelude=0, barrier=None):
         """-> (per-conversation projection, result)"""
         ex = Exec(cfg, tag=tag, prop="C07")
         proj = [[] for _ in convs]
@@ -393,6 +449,26 @@ class InterleaveProfile:
         nann = 0
         inst_of = {}
         for k in order:
+            if k == -1:
+                before = len(ex.res.outputs)
+                ok = ex.apply(barrier)
+                lines = []
+                for o in ex.res.outputs[before:]:
+                    lines += (o or [])
+                for j in range(len(convs)):
+                    inst = inst_of.get(j)
+                    mine = []
+                    for ln in lines:
+                        f = ln.split(" ")
+                        if f[0] == "X" and len(f) > 2 and inst is not None and inst.tag == f[2]:
+                            f[2] = "TAG"
+                            mine.append(" ".join(f))
+                        elif len(f) > 1 and f[0][0] in "oUuNIMCkKdDR" and inst is not None and inst.ended is None and f[1] == str(inst.cid):
+                            mine.append(ln)
+                    proj[j].append(("reload", sorted(mine)))
+                if not ok:
+                    break
+                continue
             op = convs[k][pos[k]]
             pos[k] += 1
             if op["op"] == "announce":
@@ -446,13 +522,18 @@ class InterleaveProfile:
                 pj = []
                 rs = None
                 for k, c in enumerate(convs):
-                    p1, r1 = self.run_order(cfg, [c], [0] * len(c), tag + "o%d" % k)
+                    so = [0] * len(c)
+                    if plan.get("barrier"):
+                        b = plan["bars"][k]
+                        so = [0] * b + [-1] + [0] * (len(c) - b)
+                    p1, r1 = self.run_order(cfg, [c], so, tag + "o%d" % k, barrier=plan.get("barrier"))
                     pj.append(p1[0])
                     rs = r1 if rs is None else merge_res(rs, r1)
                 projs.append(pj)
                 results.append(rs)
             else:
-                pj, rs = self.run_order(cfg, convs, order, tag + "m%d" % n, prelude=plan.get("prelude", 0) if n == 0 else 0)
+                pj, rs = self.run_order(cfg, convs, order, tag + "m%d" % n, prelude=plan.get("prelude", 0) if n == 0 else 0,
+                                        barrier=plan.get("barrier"))
                 projs.append(pj)
                 results.append(rs)
         res = results[0] if results else proto.Result()
@@ -484,6 +565,7 @@ class InterleaveProfile:
         res.extra["schedules"] = len(plan["orders"])
         res.extra["with_timeouts"] = int(bool(cfg.get("timeout")))
         res.extra["conversations_taking_over_an_id"] = len(plan.get("after") or {})
+        res.extra["evaluations_with_a_table_reload_at_fixed_per_client_positions"] = int(bool(plan.get("barrier")))
         res.extra["schedules_after_a_crowd_of_earlier_clients"] = int(bool(plan.get("prelude")))
         res.extra["late_replies_for_departed_clients"] = sum(1 for c in convs for op in c if op.get("late"))
         return res
@@ -516,6 +598,8 @@ class InterleaveProfile:
             c["orders"] = [o if o == "solo" else [x - (x > k) for x in o if x != k] for o in c["orders"]]
             if c.get("ended"):
                 del c["ended"][k]
+            if c.get("bars"):
+                del c["bars"][k]
             if c.get("after"):
                 c["after"] = {str(int(a) - (int(a) > k)): (b - (b > k)) for a, b in c["after"].items() if int(a) != k and b != k}
             budget[0] -= 1
@@ -531,6 +615,8 @@ class InterleaveProfile:
                 del c["convs"][k][j]
                 if c.get("ended") and c["ended"][k] is not None and j <= c["ended"][k]:
                     c["ended"][k] -= 1
+                if c.get("bars") and j < c["bars"][k]:
+                    c["bars"][k] -= 1
                 neworders = []
                 for o in c["orders"]:
                     if o == "solo":
